@@ -14,6 +14,8 @@ import (
 	"strings"
 
 	. "verifharness/vhlib"
+
+	"github.com/hknutzen/Netspoc-Approve/go/pkg/panos"
 )
 
 type gRule struct {
@@ -51,6 +53,14 @@ type caseInput struct {
 	Mode       string   `json:"mode"`
 	Mutations  []string `json:"mutations,omitempty"`
 	UseDrcMain bool     `json:"-"`
+	gen        *genState
+}
+
+// genState lets a generated case be continued (chainCase).
+type genState struct {
+	w       *world
+	tgt     []gVsys // the whole target, before parts were moved to raw / ipv6 files
+	devName string
 }
 
 func (r gRule) xml() string {
@@ -894,6 +904,10 @@ func genCase(rng *RNG) caseInput {
 		w.note("unknownVsys")
 	}
 	devName := "localhost.localdomain"
+	in.gen = &genState{w: w, devName: devName}
+	for _, t := range tgt {
+		in.gen.tgt = append(in.gen.tgt, cloneVsys(t))
+	}
 	// raw / IPv6 parts: a prefix of the rules is prepended from raw or ipv6, a suffix appended
 	// with <APPEND/>.
 	var raw, v6 []gVsys
@@ -954,4 +968,44 @@ func genCase(rng *RNG) caseInput {
 	}
 	in.Mutations = w.mutations
 	return in
+}
+
+// chainCase continues a case: the device is the state the approve reached (for the vsys that
+// converged; the others as they were), the target is changed again by 1–3 mutations and
+// renumbered.  Such devices carry what earlier approves leave behind: rules named rN-M next to
+// rN, groups under device names, objects created for the previous target.
+func chainCase(in caseInput, devVsys []panos.VerifVsys, reached map[string]panos.VerifVsys) (caseInput, bool) {
+	g := in.gen
+	if g == nil || len(g.tgt) == 0 {
+		return in, false
+	}
+	w := g.w
+	w.mutations = nil
+	var dev []panos.VerifVsys
+	for _, v := range devVsys {
+		if t, ok := reached[v.Name]; ok {
+			t.DisplayName = v.DisplayName
+			dev = append(dev, t)
+		} else {
+			dev = append(dev, v)
+		}
+	}
+	var tgt []gVsys
+	for _, t := range g.tgt {
+		t = cloneVsys(t)
+		for j, n := 0, 1+w.rng.Intn(3); j < n; j++ {
+			w.mutate(&t)
+		}
+		w.renumber(&t)
+		w.complete(&t, 0)
+		tgt = append(tgt, t)
+	}
+	next := caseInput{Shared: in.Shared, Mode: "chain", Mutations: w.mutations,
+		Dev:  renderConfig(g.devName, dev, w.rng.Chance(30)),
+		Spoc: configXML(g.devName, tgt, false)}
+	next.gen = &genState{w: w, devName: g.devName}
+	for _, t := range tgt {
+		next.gen.tgt = append(next.gen.tgt, cloneVsys(t))
+	}
+	return next, true
 }
